@@ -321,7 +321,9 @@ fn gen_update(rng: &mut Rng, k: &HistKnobs, ctor: bool, recent: &mut Vec<Vec<cha
 
 /// Texts of the thread tier: a tiny alphabet shared with the tag-dense models.
 fn thread_text(rng: &mut Rng, n: usize) -> String {
-    (0..n).map(|_| *rng.pick(&['a', 'b', 'a', 'b', '1', 'あ'])).collect()
+    // 'é' is a two-byte character with a low code point (cheap under Miri): together with the
+    // tag-dense models it gives tagged tokens of different byte lengths
+    (0..n).map(|_| *rng.pick(&['a', 'b', 'é', 'a', 'b', '1', 'あ'])).collect()
 }
 
 fn gen_filter(rng: &mut Rng) -> FilterSpec {
